@@ -232,6 +232,13 @@ def _flat_pred(val):
         return ["ne", 0]
     if kind == "nsig":
         return ["eq", 0]
+    # multi-bit validator results: valid iff the value is non-zero
+    if kind == "mbit":  # arg & (1 << c)
+        return ["bit", c]
+    if kind in ("mnz", "mlow2"):  # arg & all-ones ; arg[0:2] of a 2-bit argument
+        return ["ne", 0]
+    if kind == "minc":  # arg + 1 (one bit wider: never zero)
+        return ["lt", 1 << 16]
     return [kind, c]
 
 
